@@ -139,3 +139,96 @@ func runS16(c *core.Ctx) {
 	})
 	_ = sort.Strings
 }
+
+// S17: the two executors are entered through twin functions (vm.EncodeTypedPointer and
+// x86.EncodeTypedPointer). They must look up the program for the same (type, pointer-value)
+// key and hand the value, the stack and the *unchanged* flag word to their executor.
+
+func init() {
+	register(&core.Rule{ID: "S17", Min: 1,
+		Doc: "Twin entry points of the encoder executors agree: vm.EncodeTypedPointer and x86.EncodeTypedPointer take the same sequence of decisions (conditions compared after renaming the local that holds the compiled program), neither assigns any of its parameters (in particular the flag word fv, whose pointer-value bit both executors must see), and each returns its executor's result called with the same value / stack / flag arguments.",
+		Run: runS17})
+}
+
+func runS17(c *core.Ctx) {
+	p := c.Prog
+	if p.GOARCH != "amd64" {
+		return
+	}
+	vmF := core.FuncDecl(p.Pkg("internal/encoder/vm"), "", "EncodeTypedPointer")
+	xF := core.FuncDecl(p.Pkg("internal/encoder/x86"), "", "EncodeTypedPointer")
+	cn := "encoder/EncodeTypedPointer/vm~x86"
+	if vmF == nil || xF == nil || vmF.Body == nil || xF.Body == nil {
+		c.Undecided(cn, token.NoPos, "EncodeTypedPointer not found in both executors")
+		return
+	}
+	c.Analysed("internal/encoder/vm.EncodeTypedPointer")
+	c.Analysed("internal/encoder/x86.EncodeTypedPointer")
+	view := func(fd *ast.FuncDecl) (conds []string, assigned []string, rets []string) {
+		params := map[types.Object]bool{}
+		for _, f := range fd.Type.Params.List {
+			for _, nm := range f.Names {
+				params[p.ObjectOf(nm)] = true
+			}
+		}
+		local := ""
+		ast.Inspect(fd.Body, func(n ast.Node) bool {
+			switch x := n.(type) {
+			case *ast.IfStmt:
+				if as, ok := x.Init.(*ast.AssignStmt); ok && len(as.Lhs) == 2 && local == "" {
+					local = exprStr(as.Lhs[0])
+					conds = append(conds, "init "+strings.ReplaceAll(exprStr(as.Rhs[0]), local, "PROG"))
+				}
+				conds = append(conds, "if "+exprStr(x.Cond))
+			case *ast.AssignStmt:
+				for _, l := range x.Lhs {
+					if id, ok := ast.Unparen(l).(*ast.Ident); ok && params[p.ObjectOf(id)] {
+						assigned = append(assigned, id.Name)
+					}
+				}
+			case *ast.IncDecStmt:
+				if id, ok := ast.Unparen(x.X).(*ast.Ident); ok && params[p.ObjectOf(id)] {
+					assigned = append(assigned, id.Name)
+				}
+			case *ast.ReturnStmt:
+				if len(x.Results) == 1 {
+					if call, ok := ast.Unparen(x.Results[0]).(*ast.CallExpr); ok {
+						var as []string
+						for _, a := range call.Args {
+							s := exprStr(a)
+							if local != "" && strings.Contains(s, local) {
+								continue // the compiled program itself (VM passes it as an argument)
+							}
+							as = append(as, s)
+						}
+						rets = append(rets, strings.Join(as, ", "))
+					} else {
+						rets = append(rets, exprStr(x.Results[0]))
+					}
+				}
+			}
+			return true
+		})
+		return
+	}
+	vc, va, vr := view(vmF)
+	xc, xa, xr := view(xF)
+	var diffs []string
+	if strings.Join(vc, " ; ") != strings.Join(xc, " ; ") {
+		diffs = append(diffs, "decisions differ: vm ["+strings.Join(vc, " ; ")+"] vs x86 ["+strings.Join(xc, " ; ")+"]")
+	}
+	if len(va) > 0 {
+		diffs = append(diffs, "vm.EncodeTypedPointer assigns its parameter(s) "+strings.Join(va, ", ")+" (the x86 twin passes them on unchanged)")
+	}
+	if len(xa) > 0 {
+		diffs = append(diffs, "x86.EncodeTypedPointer assigns its parameter(s) "+strings.Join(xa, ", "))
+	}
+	if strings.Join(vr, " | ") != strings.Join(xr, " | ") {
+		diffs = append(diffs, "executor arguments differ: vm ["+strings.Join(vr, " | ")+"] vs x86 ["+strings.Join(xr, " | ")+"]")
+	}
+	if len(diffs) > 0 {
+		c.Bad(cn, vmF.Pos(), "%s: the two executors are entered with different state (for example the pointer-value bit, which decides whether a value behind an interface is encoded through its pointer-receiver Marshaler)", strings.Join(diffs, "; "))
+	} else {
+		c.OK(cn, vmF.Pos(), "same %d decisions, no parameter assigned, same executor arguments", len(vc))
+	}
+}
